@@ -24,7 +24,7 @@ type nmWorld struct {
 }
 
 func newNmWorld(n int, h *ev.History, contracts ...string) *nmWorld {
-	c := chainkit.NewChain(theT, n, chainkit.Options{})
+	c := chainkit.NewChain(theT, n, chainkit.Options{Validators: takeValidators()})
 	if len(contracts) == 0 {
 		contracts = []string{"netmap"}
 	}
